@@ -211,13 +211,17 @@ def _ref(ctx):
 
 def set_ok(cs: List[bool], xs: List[int], ys: List[int], g: int, present: List[bool]) -> bool:
     """
-    pre: len(cs) == 4 and len(xs) <= 2 and len(ys) <= 2 and len(present) == 3
+    pre: len(cs) == 4 and len(xs) <= MAXL() and len(ys) <= MAXL() and len(present) == 3
     post: _
     """
     for n, p in zip(OPTIONAL, present):
         PRESENT[n] = True if p else False
     ctx = dict(c0=cs[0], c1=cs[1], c2=cs[2], c3=cs[3], xs=[v for v in xs], ys=[v for v in ys], g=g, h=g - 1, u=g + 7)
     return _run(ctx) == _ref(ctx)
+
+
+def MAXL():
+    return P.get("maxl", 1)
 
 
 def conditions(tier, seed):
@@ -228,7 +232,7 @@ def conditions(tier, seed):
     for i in range(n):
         pid = seed * 100000 + i
         asyncm = i % 4 == 3
-        out.append(Cond(f"set#{pid}{'[async]' if asyncm else ''}", "set_ok", mode="A", param={"prog": pid, "asyncm": asyncm}, timeout=to,
-                        witnesses=[[[True, False, True, False], [5, 1], [2], 7, [True, True, True]], [[False] * 4, [], [], 0, [False, True, False]], [[True] * 4, [4], [6, 6], -1, [True, False, True]]],
-                        bounds="one generated template set: any 4 branch bools, any int lists of length <= 2, any context value, any presence of the 3 optional templates"))
+        out.append(Cond(f"set#{pid}{'[async]' if asyncm else ''}", "set_ok", mode="A", param={"prog": pid, "asyncm": asyncm, "maxl": 2 if th else 1}, timeout=to,
+                        witnesses=[[[True, False, True, False], [5], [2], 7, [True, True, True]], [[False] * 4, [], [], 0, [False, True, False]], [[True] * 4, [4], [6], -1, [True, False, True]]],
+                        bounds="one generated template set: any 4 branch bools, any int lists of length <= 1 (2 thorough), any context value, any presence of the 3 optional templates"))
     return out
